@@ -410,6 +410,8 @@ public:
 };
 
 static Str firstLine(const Str& s) { size_t p = s.find('\n'); return p == Str::npos ? s : s.substr(0, p); }
+// addresses of functions and statics move with ASLR: keep them out of the event-log hash
+static Str noAddrs(const Str& in) { Str out; for (size_t i = 0; i < in.size();) { if (in[i] == '0' && i + 1 < in.size() && in[i + 1] == 'x') { size_t j = i + 2; while (j < in.size() && isxdigit((unsigned char)in[j])) j++; if (j - i - 2 >= 9) { out += "0xADDR"; i = j; continue; } } out += in[i++]; } return out; }
 static const char* categoryOf(const Str& line) {
     if (line.find("Unexpected additional") != Str::npos) return "additional_call";
     if (line.find("Unexpected call to function") != Str::npos) return "unexpected_call";
@@ -656,7 +658,7 @@ struct Engine : public vf::Engine {
                 if (!buildClasses(scs[i], cls)) { probe("scenario_outside_precondition"); continue; }
                 Walk x; model(scs[i], orders[i], cls, x);
                 bool passed = outs[i].failures == 0;
-                h.u64(outs[i].failures); h.str(firstLine(outs[i].firstFailure).c_str()); for (size_t q = 0; q < outs[i].log.size(); q++) h.str(outs[i].log[q].c_str());
+                h.u64(outs[i].failures); h.str(noAddrs(firstLine(outs[i].firstFailure)).c_str()); for (size_t q = 0; q < outs[i].log.size(); q++) h.str(outs[i].log[q].c_str());
                 if (!x.pass) r.nontrivial = true;
                 probe(x.pass ? "scenario_passes" : "scenario_deviates");
                 Str dev; for (size_t q = 0; q < scs[i].calls.size(); q++) if (!scs[i].calls[q].dev.empty()) dev = scs[i].calls[q].dev;
